@@ -76,6 +76,15 @@ TARGETED = [
     "a { b: adjust-color(red, $zz: 1, $hue: 2, $aa: 3); }",
     "@function f($a, $args...) {@return $a} a { b: f($zz: 1, $aa: 2); }",
     "@mixin m($args...) { x: length($args); } a { @include m($zz: 1, $aa: 2); }",
+    # names whose `_` and `-` spellings must stay interchangeable (and strings where they must stay distinct), whatever
+    # raw spellings earlier compilations on the thread have interned
+    "@function grid-gap($x) { @return $x * 2; } a { b: grid_gap(2px); c: grid-gap(1px); d: function-exists(\"grid_gap\"); }",
+    "$_width: 10px; a { b: variable-exists(\"_width\") variable-exists(\"-width\") global-variable-exists(\"_width\"); c: $-width; }",
+    "@mixin m($my-unit) { c: $my-unit; } a { @include m((my_unit: 3)...); } b { @include m((my-unit: 4)...); }",
+    "@mixin foo_bar { x: y } a { @include foo-bar; b: mixin-exists(\"foo_bar\") mixin-exists(\"foo-bar\"); }",
+    "@function f($a_b) { @return $a-b; } a { b: f($a-b: 1) f($a_b: 2); c: call(get-function(\"f\"), $a_b: 3); d: inspect(get-function(\"f\")); }",
+    "a { b: map-get((a_b: 1, a-b: 2), a_b) map-get((a_b: 1), a-b); c: index(a_b a-b, a-b); d: a_b == a-b; e: \"x_y\" == \"x-y\"; }",
+    "@function -priv_fn() { @return 1; } a { b: -priv-fn() _priv_fn(); c: function-exists(\"_priv-fn\"); }",
     # long-running victims for the concurrent stratum: hundreds of @extend rounds whose trimming relies on per-selector
     # identities, so that other threads start and finish many compilations while one of these is in flight
     "@for $i from 1 through 70 { .f#{$i}.g#{$i} { x: $i } .h#{$i} { @extend .f#{$i}; @extend .g#{$i}; } }",
@@ -119,6 +128,13 @@ def preload(text, files, how):
         ids = ids[::-1]
     elif how == "shuffled":
         Rng(len(ids), text).shuffle(ids)
+    if how == "raw":
+        # intern the *raw* spellings (underscore and hyphen variants) through the routes that do not normalise names:
+        # property names, unit names, string contents, selectors
+        both = sorted({v for i in ids for v in (i, i.replace("-", "_"), i.replace("_", "-"))})
+        body = "vp-raw {\n" + "".join("  %s: 0;\n  x: 1%s \"%s\" %s;\n" % (i, i, i, i) for i in both if not i[0].isdigit()) + "}\n"
+        body += "".join(".%s { y: z; }\n" % i for i in both[:40] if not i[0].isdigit() and not i.startswith("-"))
+        return {"text": body, "syntax": "scss"}
     body = "".join("$%s: 0;\n" % i for i in ids)
     body += "@function vp-pre(%s) { @return 0; }\n" % ", ".join("$" + i for i in ids[:40])
     return {"text": body, "syntax": "scss"}
@@ -214,6 +230,24 @@ def run(sh):
         else:
             sh.nontrivial(["uid", rep, sh.shard])
 
+    # fixed family: every targeted program once behind each adversarial interner pre-load (spread over the shards)
+    fam = [(x, how) for x in targeted for how in ("reverse", "raw")]
+    for k, (x, how) in enumerate(fam):
+        if k % sh.nshards != sh.shard:
+            continue
+        hist = [preload(x.get("text") or "", x.get("files"), how)]
+        rs = w.history(hist + [clean(x)])
+        sh.ev(2)
+        sh.count("history_runs")
+        sh.count("history_fixed-family:" + how)
+        if isinstance(rs, dict):
+            sh.inconc("history-request-failed:" + ",".join(sorted(rs.keys())))
+            continue
+        from ..core import h64
+        sh.nontrivial(["fixed-family", how, json.dumps(clean(x), sort_keys=True)])
+        if key(rs[-1]) != ref_of(x):
+            report(sh, "history:interner-preload", x, ref_of(x), key(rs[-1]), history=hist)
+
     round_ = 0
     procs_done = 0
     while not sh.expired():
@@ -231,7 +265,7 @@ def run(sh):
                 hist = [clean(x)] * rng.range(1, 4)
                 hname = "repetition"
             elif hk == 2:
-                hist = [preload(x.get("text") or "", x.get("files"), rng.choice(["reverse", "sorted", "shuffled"]))]
+                hist = [preload(x.get("text") or "", x.get("files"), rng.choice(["reverse", "sorted", "shuffled", "raw", "raw"]))]
                 hname = "interner-preload"
             elif hk == 3:
                 hist = [dict(rng.choice(bad)) for _ in range(rng.range(1, 5))] + [clean(rng.choice(general))]
@@ -242,7 +276,7 @@ def run(sh):
                 hist = [y, clean(rng.choice(targeted))]
                 hname = "other-style-prefix"
             else:
-                hist = [preload(x.get("text") or "", x.get("files"), "reverse")] + [clean(rng.choice(targeted)) for _ in range(rng.range(1, 8))]
+                hist = [preload(x.get("text") or "", x.get("files"), rng.choice(["reverse", "raw"]))] + [clean(rng.choice(targeted)) for _ in range(rng.range(1, 8))]
                 hname = "preload+targeted-prefix"
             rs = w.history(hist + [clean(x)])
             sh.ev(len(hist) + 1)
